@@ -1,51 +1,15 @@
-From Coq Require Import List Arith Lia Bool.
+From Coq Require Import List Arith NArith Lia Bool.
 Import ListNotations.
 
-(* ---- model of reorganise_generic (mod.rs:980-1024) ---- *)
-Record item := { is_local : bool; deleted : bool; tag : nat }.
-Definition is_import (i : item) := negb (is_local i).
-
-Fixpoint remove_at {A} (n : nat) (l : list A) : list A :=
-  match n, l with
-  | _, [] => []
-  | O, _ :: t => t
-  | S n', h :: t => h :: remove_at n' t
-  end.
-Fixpoint insert_at {A} (n : nat) (x : A) (l : list A) : list A :=
-  match n, l with
-  | O, _ => x :: l
-  | S n', [] => [x]                      (* Vec::insert would panic; excluded by the invariant *)
-  | S n', h :: t => h :: insert_at n' x t
-  end.
-
-(* one iteration of the loop body; state = (live, num_imported, num_deleted) *)
-Definition step (orig idx : nat) (val : item) (st : list item * nat * nat) : list item * nat * nat :=
-  let '(live, ni, nd) := st in
-  if idx <? orig then
-    if is_local val then
-      match nth_error live (idx - nd) with
-      | Some f => (remove_at (idx - nd) live ++ [f], ni - 1, nd + 1)
-      | None => st
-      end
-    else if deleted val then (remove_at (idx - nd) live, ni - 1, nd + 1)
-    else st
-  else
-    if is_import val then
-      match nth_error live (idx - nd) with
-      | Some i => (insert_at ni i (remove_at (idx - nd) live), ni + 1, nd)
-      | None => st
-      end
-    else if deleted val then (remove_at (idx - nd) live, ni, nd + 1)
-    else st.
-
-Fixpoint loop (orig idx : nat) (snap : list item) (st : list item * nat * nat) : list item * nat * nat :=
-  match snap with
-  | [] => st
-  | v :: snap' => loop orig (S idx) snap' (step orig idx v st)
-  end.
-
+(* reorganise_generic (mod.rs:980-1024) as mirrored in Model/Reindex.v (rstep / rloop / reorganise):
+   closed form of the one-pass remove/insert/push loop. *)
+From Orca Require Import Reindex.
+Local Open Scope nat_scope.
+Notation deleted := it_del.
+Notation step := rstep.
+Notation loop := rloop.
 Definition reorganise (orig : nat) (l : list item) : list item :=
-  fst (fst (loop orig 0 l (l, orig, 0))).
+  fst (fst (rloop orig 0 l (l, orig, 0))).
 
 (* ---- specification ---- *)
 Definition keepA (i : item) := is_import i && negb (deleted i).   (* first region: surviving imports *)
@@ -252,3 +216,9 @@ Proof.
   reflexivity.
 Qed.
 Print Assumptions reorganise_spec.
+
+(* the same statement for the N-indexed entry point the model uses *)
+Theorem reorganise_spec_N : forall (orig : N) l, N.to_nat orig <= length l ->
+  Reindex.reorganise orig l = spec (N.to_nat orig) l.
+Proof. intros orig l H. exact (reorganise_spec (N.to_nat orig) l H). Qed.
+Print Assumptions reorganise_spec_N.
